@@ -439,7 +439,8 @@ class EtherCat(Protocol):
         elif args:
             if not isinstance(data, int):
                 data = len(data)
-            return unpack(fmt, ret[:-data]) + (ret[-data:],)
+            split = len(ret) - data
+            return unpack(fmt, ret[:split]) + (ret[split:],)
         else:
             return ret
 
